@@ -281,6 +281,32 @@ Theorem frozen_roundtrip_spec : forall f, thaw (frozen_roundtrip f) = thaw f /\
   fr_scalars (frozen_roundtrip f) = fr_scalars f.
 Proof. intros [[keys km] sc data]. split; reflexivity. Qed.
 
+Lemma md_index_combine : forall keys s i k, NoDup keys -> nth_error keys i = Some k ->
+  md_index (KStr k) (combine (map KStr keys) (seq s (List.length keys))) = Some (s + i)%nat.
+Proof.
+  induction keys as [|a keys IH]; intros s i k Hn Hi; [destruct i; discriminate|].
+  inversion Hn as [|? ? Ha Hn']; subst. simpl. destruct i as [|i]; simpl in Hi.
+  - injection Hi as ->. rewrite Z.eqb_refl. f_equal. symmetry. apply Nat.add_0_r.
+  - destruct (Z.eqb_spec k a) as [->|Hne]; [exfalso; apply Ha; eapply nth_error_In; eauto|].
+    rewrite (IH (S s) i k Hn' Hi). f_equal. symmetry. apply Nat.add_succ_r.
+Qed.
+
+(* the result keys themselves still resolve, to the same positions *)
+Theorem frozen_key_lookup_kept : forall f i k, NoDup (md_keys (fr_md f)) ->
+  nth_error (md_keys (fr_md f)) i = Some k -> frozen_index (frozen_roundtrip f) (KStr k) = Some i.
+Proof.
+  intros [[keys km] sc data] i k Hn Hi. unfold frozen_index, frozen_roundtrip, simple_md_roundtrip, rebuild. simpl in *.
+  now rewrite (md_index_combine keys 0 i k Hn Hi).
+Qed.
+
+(* ... but any other string key the frozen metadata answered (Column.key, "table_column" label) is lost *)
+Theorem frozen_alias_lookup_refuted : exists f k i,
+  frozen_index f (KStr k) = Some i /\ frozen_index (frozen_roundtrip f) (KStr k) = None.
+Proof.
+  exists (mkFrozen (mkMd [1; 2] [(KStr 1, 0%nat); (KStr 2, 1%nat); (KStr 3, 1%nat)]) false [[10; 20]]), 3, 1%nat.
+  split; reflexivity.
+Qed.
+
 (* ================= serializer ================= *)
 Lemma str_eqb_refl : forall s, str_eqb s s = true.
 Proof. induction s; simpl; auto. now rewrite Z.eqb_refl. Qed.
